@@ -583,6 +583,10 @@ func buildScenarios() []*mc.Scenario {
 			cRename("rename(d2/c->/z)", selD2, "c", selRoot, "z"),
 			cOpenCreate("open(z/n)", selZ, "n"),
 			cRemoveAllChildren("RemoveAllChildren(z)", selZ, false)),
+		// Production wiring: pool backed files with named attributes
+		// behind the NFS and the FUSE handle allocator.
+		prodScenario("prod-xattr-nfs", true),
+		prodScenario("prod-xattr-fuse", false),
 		// The scenario the coordinator started with (kept): a leaked
 		// lock on the error path of a removed directory.
 		{
